@@ -5,7 +5,7 @@ from __future__ import annotations
 import ast
 
 from ..core import AnalysisError, Check, Scope, dotted, norm, strip_docstring, walk_no_nested
-from ..dispatch import classify_body, if_chain, isinstance_kinds, match_dispatch, sequential_chain
+from ..dispatch import applied_args, operator_table, classify_body, if_chain, isinstance_kinds, match_dispatch, sequential_chain
 from ..variants import Variant
 
 MOD = "meta/source_tools.py"
@@ -515,22 +515,59 @@ class C06(Check):
     def s11(self, mod) -> None:
         BIN = {"Add": "left + right", "Sub": "left - right", "Mult": "left * right", "Div": "left / right", "Pow": "left ** right", "Mod": "left % right", "FloorDiv": "left // right"}
         UN = {"UAdd": "+left", "USub": "-left"}
+        OPF = {"operator.add": "{0} + {1}", "operator.sub": "{0} - {1}", "operator.mul": "{0} * {1}", "operator.truediv": "{0} / {1}", "operator.pow": "{0} ** {1}",
+               "operator.mod": "{0} % {1}", "operator.floordiv": "{0} // {1}", "operator.pos": "+{0}", "operator.neg": "-{0}"}
         for fname, table in (("_handle_binop", BIN), ("_handle_unaryop", UN)):
             fn = mod.func(fname)
-            m = [n for n in walk_no_nested(fn) if isinstance(n, ast.Match)]
-            if not m:
+            ot = operator_table(mod, fn)
+            if ot is None:
                 raise AnalysisError(f"{fname}: operator dispatch not found")
-            for c in m[0].cases:
-                if not isinstance(c.pattern, ast.MatchClass):
-                    continue
-                k = norm(c.pattern.cls).split(".")[-1]
-                got = norm(c.body[-1].value) if isinstance(c.body[-1], ast.Return) else "?"
-                if k not in table:
-                    self.info("S11", MOD, fname, f"operator {k}", c.body[-1], f"unvetted operator -> {got}")
-                elif got == table[k]:
-                    self.holds("S11", MOD, fname, f"operator {k}", c.body[-1], f"{k} -> {got}")
+            entries, default, anchor = ot
+            # operand roles: the names that hold the translated left / right (or only) operand
+            roles = {}
+            for s_ in walk_no_nested(fn):
+                if isinstance(s_, ast.Assign) and isinstance(s_.targets[0], ast.Name):
+                    v_ = s_.value
+                    while isinstance(v_, ast.Call) and norm(v_.func) == "cast" and len(v_.args) == 2:
+                        v_ = v_.args[1]
+                    if isinstance(v_, ast.Call) and norm(v_.func) == "_handle_expr" and v_.args:
+                        src = norm(v_.args[0])
+                        if src in ("node.left", "node.operand"):
+                            roles[s_.targets[0].id] = "left"
+                        elif src == "node.right":
+                            roles[s_.targets[0].id] = "right"
+            args_ = applied_args(fn, anchor) if not isinstance(anchor, (ast.Match, ast.If)) else None
+            if not isinstance(anchor, ast.Match):
+                if default == "raise":
+                    self.holds("S1", MOD, fname, "operator-table", anchor, f"operators {sorted(entries)} handled through a table; any other operator raises")
                 else:
-                    self.violated("S11", MOD, fname, f"operator {k}", c.body[-1], f"Python {k} is translated as `{got}` instead of `{table[k]}`",
+                    self.violated("S1", MOD, fname, "operator-table", anchor, f"an operator missing from the table is not refused ({default})",
+                                  witness="an operator without a translation (e.g. `~x`, `x @ y`, `x << 1`) yields an expression")
+
+            def canon(txt: str) -> str:
+                t_ = ast.parse(txt, mode="eval").body
+                class R(ast.NodeTransformer):
+                    def visit_Name(self_i, n_):
+                        return ast.Name(id=roles.get(n_.id, n_.id), ctx=n_.ctx)
+                return norm(R().visit(t_))
+
+            for k, val in sorted(entries.items()):
+                if args_ is not None and val in OPF:
+                    try:
+                        got = canon(OPF[val].format(*args_))
+                    except (IndexError, SyntaxError):
+                        got = f"{val}({', '.join(args_)})"
+                else:
+                    try:
+                        got = canon(val)
+                    except SyntaxError:
+                        got = val
+                if k not in table:
+                    self.info("S11", MOD, fname, f"operator {k}", anchor, f"unvetted operator -> {got}")
+                elif got == table[k]:
+                    self.holds("S11", MOD, fname, f"operator {k}", anchor, f"{k} -> {got}")
+                else:
+                    self.violated("S11", MOD, fname, f"operator {k}", anchor, f"Python {k} is translated as `{got}` instead of `{table[k]}`",
                                   witness=f"a rate law using the {k} operator translates to an expression with different values")
         he = mod.func("_handle_expr")
         CMP = {"Gt": "PREV > RIGHT", "GtE": "PREV >= RIGHT", "Lt": "PREV < RIGHT", "LtE": "PREV <= RIGHT",
